@@ -64,6 +64,21 @@ pub mod polling {
             ensures r is Ok ==> self.w_deleted(fd_raw(&source)), self.w_delete_called(fd_raw(&source)),
         { unimplemented!() }
     }
+    impl Events {
+        #[verifier::external_body] pub fn clear(&mut self) { unimplemented!() }
+    }
+    impl Poller {
+        /// may-call side for the wait: with which timeout the poller may be waited on (DESIGN 2.12)
+        pub uninterp spec fn may_wait(&self, timeout: Option<std::time::Duration>) -> bool;
+        /// the poller has been waited on with this timeout
+        pub uninterp spec fn w_waited(&self, timeout: Option<std::time::Duration>) -> bool;
+        /// ASSUMED: blocks until an event, a notification or the timeout; fills `events`. No visible state.
+        #[verifier::external_body]
+        pub fn wait(&self, events: &mut Events, timeout: Option<std::time::Duration>) -> (r: std::io::Result<usize>)
+            requires self.may_wait(timeout),
+            ensures self.w_waited(timeout),
+        { unimplemented!() }
+    }
     #[derive(Clone, Copy)]
     pub enum PollMode { Oneshot, Level, Edge, EdgeOneshot }
 }
